@@ -215,6 +215,46 @@ func init() {
 				})
 			})
 		}
+		// Part 2b: size families (wide fan-out, deep chain, many roots) under a cross-section of the spelling family
+		for size := 2; size <= 40 && !c.Expired(); size += 1 {
+			if !c.Take() {
+				continue
+			}
+			var dw, dc, dr []int
+			var nw, nc, nr []string
+			dw, nw = append(dw, 1), append(nw, "wide")
+			for i := 0; i < size; i++ {
+				dw = append(dw, 2)
+				nw = append(nw, fmt.Sprintf("c%02d", i))
+				dc = append(dc, i+1)
+				nc = append(nc, fmt.Sprintf("n%02d", i))
+				dr = append(dr, 1, 2)
+				nr = append(nr, fmt.Sprintf("root%02d", i), "k")
+			}
+			for _, t := range []struct {
+				d []int
+				n []string
+			}{{dw, nw}, {dc, nc}, {dr, nr}} {
+				roots := 0
+				for _, x := range t.d {
+					if x == 1 {
+						roots++
+					}
+				}
+				cn := &c15Canon{doc: enum.Spell(t.d, t.n, enum.Canonical), out: map[string]string{}, roots: roots}
+				c.StateN(1)
+				for ui, unit := range c15Units {
+					for _, heading := range []bool{false, true} {
+						for _, crlf := range []bool{false, true} {
+							idx++
+							gaps := make([]int, len(t.d)+1)
+							gaps[(ui+size)%len(gaps)] = 1 + ui%2
+							c15Check(c, cn, t.d, t.n, enum.Spelling{Unit: unit, Bullets: []byte("-*+"), Heading: heading, Gaps: gaps, CRLF: crlf, NoFinal: ui%2 == 0}, idx*16)
+						}
+					}
+				}
+			}
+		}
 		// Part 3 (thorough): hostile names at n <= 2, full product
 		if c.Thorough() {
 			host := []string{"x y", "+x*", "é", "- q"}
